@@ -200,3 +200,113 @@ def _analyse(repo: Repo, s: MemoSite, defs, stored_val: ast.AST):
 def id_calls(fn: ast.AST) -> List[ast.Call]:
     return [n for n in walk_local(fn, into_nested=True) if isinstance(n, ast.Call) and isinstance(n.func, ast.Name)
             and n.func.id == "id" and len(n.args) == 1]
+
+
+# --------------------------------------------------------------------------
+# local (per-call) caches:  cache = {} ... if k not in cache: cache[k] = f(..)
+# --------------------------------------------------------------------------
+def local_memo_sites(repo: Repo, fi: FuncInfo) -> List[MemoSite]:
+    from ..core import parent_map
+    fn = fi.node
+    defs = local_defs(fn)
+    pm = parent_map(fn)
+    caches = {}
+    for nm, ds in defs.items():
+        for d in ds:
+            if d.kind == "assign" and (isinstance(d.value, ast.Dict) and not d.value.keys
+                                       or (isinstance(d.value, ast.Call) and dotted(d.value.func) == "dict" and not d.value.args)):
+                caches.setdefault(nm, []).append(d.stmt)
+    sites = []
+    for n in walk_local(fn):
+        if not (isinstance(n, ast.Assign) and len(n.targets) == 1 and isinstance(n.targets[0], ast.Subscript)
+                and isinstance(n.targets[0].value, ast.Name) and n.targets[0].value.id in caches):
+            continue
+        t = n.targets[0]
+        cname = t.value.id
+        val = origin(defs, n.value)
+        if not isinstance(val, ast.Call):
+            continue
+        # a memo store is guarded by a membership test on the same key
+        guarded = False
+        cur = pm.get(n)
+        while cur is not None and cur is not fn:
+            if isinstance(cur, ast.If) and isinstance(cur.test, ast.Compare) and isinstance(cur.test.ops[0], (ast.NotIn, ast.In)) \
+                    and norm(cur.test.comparators[0]) == cname:
+                guarded = True
+            cur = pm.get(cur)
+        if not guarded:
+            continue
+        key_parts = _expand_key(defs, t.slice)
+        s = MemoSite(fi, cname, "local", key_parts, n, n.value, val)
+        key_txt = {norm(k) for k in key_parts}
+        # loops enclosing the cache initialisation(s)
+        def loops_of(node):
+            out, c = [], pm.get(node)
+            while c is not None and c is not fn:
+                if isinstance(c, (ast.For, ast.While)):
+                    out.append(c)
+                c = pm.get(c)
+            return out
+        init_loops = [set(map(id, loops_of(st))) for st in caches[cname]]
+        for a in list(val.args) + [k.value for k in val.keywords]:
+            a0 = origin(defs, a) if not isinstance(a, ast.Name) else a
+            txt = norm(a0)
+            if isinstance(a0, ast.Constant):
+                continue
+            s.inputs.append((txt, a0))
+            if txt in key_txt:
+                s.covered.append(txt)
+                continue
+            if isinstance(a0, ast.Name):
+                rebinds = [d for d in defs.get(a0.id, []) if d.kind != "param"]
+                if not rebinds:
+                    s.covered.append(f"{txt} (parameter, fixed for the cache's lifetime)")
+                    continue
+                ok_all = True
+                for d in rebinds:
+                    lps = loops_of(d.stmt)
+                    if not lps:
+                        # re-bound outside any loop (e.g. before the cache exists): harmless if before the init
+                        if all(d.stmt.lineno < st.lineno for st in caches[cname]):
+                            continue
+                        ok_all = False
+                        break
+                    L = lps[0]
+                    # (i) the cache is re-created inside the same loop -> it never outlives one value of the input
+                    if any(id(L) in il for il in init_loops):
+                        continue
+                    # (ii) a key component is advanced unconditionally in the same loop body
+                    adv = False
+                    for k in key_parts:
+                        if isinstance(k, ast.Name):
+                            for st in L.body:
+                                if isinstance(st, ast.AugAssign) and norm(st.target) == k.id:
+                                    adv = True
+                                if isinstance(st, ast.Assign) and any(norm(x) == k.id for x in st.targets):
+                                    # a fresh value each round is only sound if it is not an id() of a temporary
+                                    v2 = st.value
+                                    if isinstance(v2, ast.Call) and isinstance(v2.func, ast.Name) and v2.func.id == "id":
+                                        s.problems.append(("id-of-temporary", v2,
+                                                           f"`{k.id} = {norm(v2)[:60]}` stands in for `{txt}` in the key, but the id of a dropped temporary can be reused: "
+                                                           f"entries computed for an earlier `{txt}` are then served for a later one"))
+                                        adv = True
+                                    else:
+                                        adv = True
+                    if not adv:
+                        ok_all = False
+                        break
+                if ok_all:
+                    s.covered.append(f"{txt} (represented in the key by a per-round counter / cache re-created per round)")
+                    continue
+                s.problems.append(("incomplete-key", a0, f"the cached value depends on `{txt}`, which changes while the cache lives, but the key does not reflect it"))
+                continue
+            if txt.startswith("self."):
+                s.covered.append(txt + " (receiver state, fixed during the call)")
+                continue
+            s.problems.append(("incomplete-key", a0, f"the cached value depends on `{txt}` which is not part of the key"))
+        for k in key_parts:
+            if isinstance(k, ast.Call) and isinstance(k.func, ast.Name) and k.func.id == "id" and k.args \
+                    and not isinstance(k.args[0], (ast.Name, ast.Attribute)):
+                s.problems.append(("id-of-temporary", k, f"`{norm(k)[:60]}` takes the identity of a temporary; ids are reused once it is dropped"))
+        sites.append(s)
+    return sites
